@@ -22,8 +22,8 @@ from harness.trace import Run
 PROP = "C01"
 THEOREMS = ["Lbfgsb.C01.projgr_zero_iff_kkt", "Lbfgsb.C01.d0_zero_iff_kkt", "Lbfgsb.C01.nonstationary_moves",
             "Lbfgsb.C01.moving_breakpoint_pos", "Lbfgsb.C01.d0_descent_term",
-            "Lbfgsb.C01.nonstationary_cauchy_decrease", "Lbfgsb.C01.nonstationary_descent", "Lbfgsb.C01.model_iteration_descent"]
-MODULES = ["LbfgsbVerif.Props.C01", "LbfgsbVerif.Props.C01Descent"]
+            "Lbfgsb.C01.nonstationary_cauchy_decrease", "Lbfgsb.C01.nonstationary_descent", "Lbfgsb.C01.model_iteration_descent", "Lbfgsb.kernelInput_sizes", "Lbfgsb.buildMinv_symm", "Lbfgsb.complete_iteration_descent", "Lbfgsb.first_iteration_descent"]
+MODULES = ["LbfgsbVerif.Props.C01", "LbfgsbVerif.Props.C01Descent", "LbfgsbVerif.Props.Kernels"]
 EPS = float(np.finfo(float).eps)
 
 
@@ -68,6 +68,9 @@ def build(case):
 
 
 def evaluate(case: Dict[str, Any]) -> Dict[str, Any]:
+    if case.get("kind") == "whole":
+        from harness import whole
+        return whole.evaluate(case)
     out: Dict[str, Any] = {"corr": [], "skipped": None, "tags": [], "prop": []}
     kw, desc, p = build(case)
     run = Run(kw).execute()
@@ -151,12 +154,17 @@ def run(tier: str, seed: int) -> int:
         if i % 2 == 1:
             c["pattern"] = PATTERNS[(i // 2) % len(PATTERNS)]
         cases.append(c)
+    from harness import whole
+    nw = 300 if tier == "quick" else 6000
+    cases += [whole.gen_case(seed * 1_000_003 + 3_000_000 + i) for i in range(nw)]
     return run_property(
         PROP, "harness.props.c01", THEOREMS, MODULES, cases, tier, seed,
         rule="strictly convex families (QP cond <= 1e4, QP+quartic, QP+softplus), n 1..12, every box kind, starts interior / on faces / "
              "on vertices and starts built by construction on a bound with the gradient inward or outward with one-sided, infinite, finite "
              "and degenerate other sides; maxcor 1..10; ftol = 0, budget 5000 iterations: projected gradient recomputed from the harness's "
-             "closures <= max(10 gtol, resolution level); every run replayed through the Lean driver model",
+             "closures <= max(10 gtol, resolution level); every run replayed through the Lean driver model; plus the COMPLETE model (driver + composed "
+             "kernel models + DCSRCH model, no recorded answers) executed natively on the package's benchmark functions with random boxes/starts/maxcor "
+             "against the package: iteration counts and the first 8 iterates (relative 1e-5; finite-difference modes: polynomial benchmarks, first 3 iterates, 1e-4)",
         assumptions=["resolution level = 10 sqrt(2 L noise) + 100 eps L max(1,|x|), with noise = measured change of the computed objective under 1-ulp "
                      "perturbations of the returned x (>= eps |f|) and L = measured local Lipschitz constant of the gradient"])
 
